@@ -23,6 +23,8 @@ func init() {
 			{ID: "R13a", Floor: 3, Doc: "hash gate + full consumption of the streamed block; index-codec decision on every success path", Run: ruleR13a},
 			{ID: "R13b", Floor: 8, Doc: "no dropped/swallowed error in Inspect; loop exits", Run: ruleR13b},
 			{ID: "R13c", Floor: 9, Doc: "accumulator idioms bound to the right quantities", Run: ruleR13c},
+			{ID: "R13e", Floor: 2, Doc: "the payload header is consumed by decoding it from the data reader; the hasher is given the CID's own digest length", Run: ruleR13e},
+			{ID: "R13f", Floor: 4, Doc: "index codec prefix read with the same varint family it is written with (= R11c)", Run: ruleR11c},
 			{ID: "R13d", Floor: 20, Doc: "section lengths bounded by the section limit, header by the header limit (= R09c)", Run: ruleR09c},
 		},
 	})
@@ -369,4 +371,68 @@ func checkTotal(loopPhi *ssa.Phi, isX func(ssa.Value) bool) string {
 		}
 	}
 	return ""
+}
+
+func ruleR13e(c *Ctx, r *Report) {
+	fn, err := c.Func(modV2, "Reader", "Inspect")
+	if err != nil {
+		r.InfraFail("%v", err)
+		return
+	}
+	// header consumed by reading it
+	{
+		key := "header-consumed-by-decoding@" + fnKey(fn)
+		drs := callsToFunc(fn, modV2, "Reader", "DataReader")
+		rh := callsToFunc(fn, pkgV1, "", "ReadHeader")
+		bad := ""
+		if len(drs) != 1 || len(rh) != 1 {
+			bad = "Inspect does not decode the payload header with carv1.ReadHeader from its data reader: skipping it by a size obtained from re-encoding (HeaderSize) mis-positions the scan for headers whose stored encoding is not canonical"
+		} else {
+			dr := extractOf(drs[0].Value(), 0)
+			if canon(stripIface(rh[0].Common().Args[0])) != dr {
+				bad = "the header is not decoded from the data reader the sections are then read from"
+			}
+			eachInstr(fn, func(in ssa.Instruction) {
+				ci, ok := in.(*ssa.Call)
+				if !ok || !isSeekCall(ci) || canon(stripIface(seekReceiver(ci))) != dr {
+					return
+				}
+				_, wh := seekArgs(ci)
+				if k, ok := constInt(wh); !ok || k != 1 {
+					bad = "the data reader is re-positioned absolutely at " + c.Pos(in.Pos()) + ": section positions must follow from what was read"
+				}
+			})
+		}
+		r.Check(bad == "", key, c.Pos(fn.Pos()), "ReadHeader(dr) then relative seeks only", bad)
+	}
+	// digest length
+	{
+		key := "digest-length@" + fnKey(fn)
+		sums := callsToFunc(fn, pkgMh, "", "SumStream")
+		bad := ""
+		if len(sums) != 1 {
+			bad = "SumStream not found"
+		} else {
+			sawLen, sawOther := false, false
+			for _, o := range origins(sums[0].Common().Args[2], originOpts{}) {
+				switch {
+				case o.Kind == "field" && o.Field != nil && o.Field.Name() == "MhLength":
+					sawLen = true
+				case o.Kind == "const":
+					if k, ok := constInt(o.Val); !ok || k != -1 {
+						sawOther = true
+					}
+				default:
+					sawOther = true
+				}
+			}
+			if !sawLen || sawOther {
+				bad = "the streamed hash is not computed with the CID's own digest length (Prefix().MhLength, -1 only for identity): CIDs with truncated digests are then reported as mismatching although the verifying readers accept them"
+			}
+			if fv, _ := fieldOfLoad(canon(sums[0].Common().Args[1])); fv == nil || fv.Name() != "MhType" {
+				bad = "the streamed hash does not use the CID's own hash function (Prefix().MhType)"
+			}
+		}
+		r.Check(bad == "", key, c.Pos(fn.Pos()), "SumStream(reader, cp.MhType, cp.MhLength | -1 for identity)", bad)
+	}
 }
